@@ -34,7 +34,7 @@ def main():
     for fn in ("seeded_demo.rs",):
         src = os.path.join(wt, "tests", fn)
         if os.path.exists(src): shutil.copy(src, os.path.join(d, fn))
-    notes = os.path.join("/tmp/seed-out", prop, "notes.md")
+    notes = os.path.join("/tmp/seed%s-out" % ("" if sid.endswith("-a") else sid.split("-")[1]), prop, "notes.md")
     if os.path.exists(notes):
         shutil.copy(notes, os.path.join(d, "notes.md"))
         meta["needs_to_manifest"] = open(notes, encoding="utf-8").read()[:1500]
